@@ -1,5 +1,6 @@
 (** Property C10 — emitted transactions are well-formed and self-consistent (structural part). *)
-From Tx3 Require Import Base Tir Reduce PlutusData Compile Compile_proofs.
+From Tx3 Require Import Base Tir Reduce PlutusData Compile Compile_proofs Compile_reds.
+From stdpp Require Import sorting.
 
 Theorem C10_hash_fields_presence : forall mainnet ap aos kh rw ns cm t a,
   compile_tx mainnet ap aos kh rw ns cm t = Ok a ->
@@ -10,5 +11,16 @@ Proof. exact hash_fields_presence. Qed.
 Theorem C10_no_empty_multiasset : forall safe_add items m, aggregate_assets safe_add items = Some m -> m <> [].
 Proof. exact aggregate_assets_nonempty. Qed.
 
+(** the redeemers of the witness set are strictly ascending by (purpose, index): the ledger's
+    map order, one redeemer per purpose and item *)
+Theorem C10_redeemers_strictly_sorted : forall rs,
+  StronglySorted red_lt (fold_left (fun acc r => red_put r acc) rs []).
+Proof. exact redeemers_strictly_sorted. Qed.
+Theorem C10_redeemer_keys_distinct : forall rs,
+  NoDup (map (fun r => (rd_tag r, rd_index r)) (fold_left (fun acc r => red_put r acc) rs [])).
+Proof. exact redeemers_keys_distinct. Qed.
+
 Print Assumptions C10_hash_fields_presence.
 Print Assumptions C10_no_empty_multiasset.
+Print Assumptions C10_redeemers_strictly_sorted.
+Print Assumptions C10_redeemer_keys_distinct.
